@@ -744,6 +744,11 @@ func byzMutate(tp *kernel.Tape, sc *node.SConn, kind int, frame []byte) (out []b
 			r.Op, r.AuthNull = cqlspec.OpAuthSuccess, true
 		case 5:
 			r.Op, r.Error = cqlspec.OpError, &cqlspec.ErrorBody{Code: allErrorCodes[tp.Next(len(allErrorCodes))], Message: "m", WriteType: "SIMPLE"}
+			if tp.Chance(1, 3) {
+				// "unknown prepared id", whatever the request was (a plain QUERY, a PREPARE, a
+				// handshake step, a system-table query of the control connection)
+				r.Error = &cqlspec.ErrorBody{Code: cqlspec.ErrUnprepared, Message: "unprepared", UnpreparedID: [][]byte{[]byte("x"), {}, []byte("id:tok-0-0")}[tp.Next(3)]}
+			}
 		case 6:
 			r.Op, r.Kind = cqlspec.OpResult, cqlspec.KindVoid
 		case 7:
